@@ -341,6 +341,28 @@ fn check_archive_index(c: &ArchiveIndexProg) -> Verdict {
     }
 }
 
+// ---- BLTE containers with chunk counts around 2^16 -------------------------------
+
+#[derive(Debug, Clone, Serialize, Deserialize)]
+struct ManyChunksProg {
+    chunks: u32,
+}
+
+fn check_many_chunks(c: &ManyChunksProg) -> Verdict {
+    use cascette_formats::blte::{BlteFile, ChunkData, CompressionMode};
+    let mut chunks = Vec::with_capacity(c.chunks as usize);
+    for i in 0..c.chunks {
+        match ChunkData::new(vec![(i % 251) as u8], CompressionMode::None) {
+            Ok(ch) => chunks.push(ch),
+            Err(_) => return Verdict::pass().class("builder-refused"),
+        }
+    }
+    match BlteFile::multi_chunk(chunks) {
+        Ok(f) => roundtrip("blte", &f).nontrivial(true).class_if(c.chunks >= 65_536, "chunk-count>=65536"),
+        Err(_) => Verdict::pass().class("builder-refused"),
+    }
+}
+
 // ---- archive group through the merging builder -----------------------------------
 
 /// `build_merged` over source indices that share keys: the group it writes must be accepted by
@@ -730,6 +752,15 @@ fn main() {
             check_archive_index,
         )
         .shards(4),
+    );
+    ck.run(
+        Section::enumerate(
+            "builder-blte-many-chunks",
+            "BlteFile::multi_chunk over 255 / 256 / 65,535 / 65,536 / 65,541 / 70,000 one-byte chunks (the count is a 24-bit field): build -> parse -> same chunks, second build identical",
+            || Box::new([255u32, 256, 65_535, 65_536, 65_541, 70_000].into_iter().map(|chunks| ManyChunksProg { chunks })),
+            check_many_chunks,
+        )
+        .shards(6),
     );
     ck.run(
         Section::enumerate(
